@@ -504,6 +504,38 @@ def check(fx, rep, tier):
     # unification finishes: every arm of merge consumes evidence (C14 R14.5, re-evaluated)
     core.import_rules(rep, fx, "C14", "R03.8", only_rules=("R14.5",), floor=1, what="judgement-emitting merge arms audited for consuming evidence")
     core.import_rules(rep, fx, "C01", "R03.7", only_rules=("R01.3", "R01.4"), floor=10, what="recursive components and attacker-scaled ranges audited for halting")
+    # lifting finishes in time proportional to the value: a lifter that rebuilds a node puts each matched sub-tree into the result
+    # ONCE. A field filled from the very operand whose inside another field was taken from duplicates that sub-tree, and nested
+    # occurrences double the tree (and the time and memory of every later pass) per level.
+    SVD_ = "vm::value::SymbolicValueData"
+    n_dup = 0
+    for b in fx.fn_bodies():
+        if not b["def"].startswith("<tc::lift::") or not b.get("hir") or b.get("from_expansion"):
+            continue
+        root = b["hir"]["value"]
+        # operands whose data() is matched against a hash on some path
+        opened = set()
+        for x, _ in F.walk(root):
+            if x.get("k") == "Let" and isinstance(x.get("pat"), dict) and (F.pat_variants(x["pat"]) or set()) == {(SVD_, "Sha3")}:
+                for y, _ in F.walk(x["init"]):
+                    if y.get("k") == "Path" and y.get("res") == "local":
+                        opened.add(y["local"])
+                        break
+        if not opened:
+            continue
+        for st, sps in F.walk(root):
+            if st.get("k") != "Struct" or st.get("adt") != SVD_ or st.get("variant") not in ("DynamicArrayIndex", "MappingIndex"):
+                continue
+            for f in st["fields"]:
+                if f["field"] not in ("index", "key", "projection"):
+                    continue
+                used = [y["local"] for y, _ in F.walk(f["e"]) if y.get("k") == "Path" and y.get("res") == "local"]
+                if not used:
+                    continue
+                n_dup += 1
+                dup = used[0] in opened
+                rep.oblige(not dup, "R03.7", f"lift-duplicates:{F.strip_generics(b['def'])}:{st['variant']}.{f['field']}", F.loc(st["span"]), f"`{b['def']}` fills `{st['variant']}.{f['field']}` from an operand whose hashed inside it also lifts into another field (the hash may be that very operand): the hashed sub-tree is rebuilt twice, so nested accesses double the lifted value - and the time and memory of every later stage - per level", sample={"rule": "R03.7", "fn": b["def"], "field": f["field"], "duplicates": dup})
+    rep.floor("R03.7", n_dup, 1, "index fields of lifted array / mapping accesses")
     return rep.finish(
         "Control-skeleton audit of the four execution bounds: who writes the instruction pointer and who may step; the stop condition guarding the single step "
         "(visit limit at ip+1, gas > limit, killed) normalised from its inlined terms; the fork guard and fork_to's true-path; the normal form of the limit comparison and the unit increment; "
